@@ -37,6 +37,21 @@ def opts(ctx):
 def gen_ro(rng):
     out = []
     for _ in range(rng.choice([1, 1, 2, 3])):
+        if out and rng.random() < 0.4:
+            # an entry related to an earlier one (same path, its parent or a child; either flag): the
+            # registration order and overlaps of entries must not weaken what each entry protects
+            prefix, segs, rec = rng.choice(out)
+            segs = [list(x) for x in segs]
+            c = rng.random()
+            if c < 0.35 and len(segs) > 1:
+                segs = segs[:-1]
+            elif c < 0.7:
+                segs.append(["i", rng.choice([0, 1, 2])] if rng.random() < 0.35
+                            else ["f", rng.choice(["p", "q", "k1", "k2", "extra"])])
+            else:
+                rec = not rec
+            out.append([prefix, segs, rec if c >= 0.7 else rng.random() < 0.6])
+            continue
         prefix = "%" if rng.random() < 0.2 else "."
         base = rng.choice(["o1", "o2", "w", "x", "obj", "nest", "o5", "deep"])
         segs = [["f", base]]
@@ -142,49 +157,57 @@ def run_case(ctx, case):
         text, rec, what, before, after = bad
         # cause classification from the mutating ops that share the read-only path's parent
         ro_entry = next(r for r in ro if path_text(r[0], [(k, x) for k, x in r[1]]) == text)
-        cause = "other"
+        cands = set()
+        root = ev if ro_entry[0] == "." else md
+        ro_segs = ro_entry[1]
         for o in muts:
+            if o[4]["prefix"] != ro_entry[0]:
+                continue
             rel = relation(o[4], ro_entry)
             segs_o = o[4]["segs"]
             neg = any("i" in sg and sg["i"] < 0 for sg in segs_o)
-            if rel in ("sibling_or_alias", "disjoint") and neg and o[4]["prefix"] == ro_entry[0]:
-                cause = "negative_index_alias"
-                break
-            ro_segs = ro_entry[1]
             o_segs = [[("f" if "f" in sg else "i"), sg.get("f", sg.get("i"))] for sg in segs_o]
             k = 0
             while k < min(len(ro_segs), len(o_segs)) and ro_segs[k] == o_segs[k]:
                 k += 1
-            if (k < min(len(ro_segs), len(o_segs)) and ro_segs[k][0] != o_segs[k][0]
-                    and o[4]["prefix"] == ro_entry[0] and o[0] == "insert"):
-                cause = "container_type_replaced"
-                break
+            if rel in ("sibling_or_alias", "disjoint") and neg:
+                cands.add("negative_index_alias")
+            if k < min(len(ro_segs), len(o_segs)) and o[0] == "insert":
+                if ro_segs[k][0] != o_segs[k][0]:
+                    cands.add("container_type_replaced")
+                else:
+                    # an insertion below a value that is not the container its next segment needs
+                    # replaces that value by a fresh container (and pads arrays with nulls)
+                    at = mv.get(root, [(x, y) for x, y in ro_segs[:k]])
+                    need = "array" if o_segs[k][0] == "i" else "object"
+                    if at[0] and tag(at[1]) != need:
+                        cands.add("container_type_replaced")
+                    elif at[0] and need == "array":
+                        cands.add("array_padding")
             if rel == "sibling_or_alias" and o[0] == "remove":
-                cause = "array_shift_by_del"
-            elif rel in ("same", "ancestor", "descendant") and cause == "other":
-                cause = "direct_%s_%s" % (o[0], rel)
-        if cause == "other":
-            # an insertion below a value that is not the container its next segment needs replaces
-            # that value by a fresh container (and pads arrays with nulls): the protected path that
-            # "did not exist" inside the scalar now exists
-            root = ev if ro_entry[0] == "." else md
-            for o in muts:
-                if o[0] != "insert" or o[4]["prefix"] != ro_entry[0]:
-                    continue
-                o_segs = [[("f" if "f" in sg else "i"), sg.get("f", sg.get("i"))] for sg in o[4]["segs"]]
-                k = 0
-                while k < min(len(ro_entry[1]), len(o_segs)) and ro_entry[1][k] == o_segs[k]:
-                    k += 1
-                if k >= len(o_segs) or k >= len(ro_entry[1]):
-                    continue
-                at = mv.get(root, [(a, b) for a, b in ro_entry[1][:k]])
-                need = "array" if o_segs[k][0] == "i" else "object"
-                if at[0] and tag(at[1]) != need:
-                    cause = "container_type_replaced"
-                    break
-                if at[0] and need == "array":
-                    cause = "array_padding"
-                    break
+                cands.add("array_shift_by_del")
+            if rel == "descendant":
+                if rec:
+                    # the compiler must reject every write below a recursive read-only path
+                    cands.add("write_below_recursive_path")
+                elif not before[0]:
+                    cands.add("child_write_created_node")
+                elif tag(before[1]) not in ("array", "object"):
+                    # non-recursive entry holding a scalar: inserting / removing a child replaces it
+                    cands.add("child_write_replaced_scalar")
+                elif (o[0] == "insert" and len(o_segs) > len(ro_segs)
+                      and tag(before[1]) != ("array" if o_segs[len(ro_segs)][0] == "i" else "object")):
+                    # non-recursive entry holding an array (object): a field (index) child insert replaces it
+                    cands.add("container_type_replaced")
+                else:
+                    cands.add("direct_%s_descendant" % o[0])
+            elif rel in ("same", "ancestor"):
+                cands.add("direct_%s_%s" % (o[0], rel))
+        order = ["write_below_recursive_path", "direct_insert_same", "direct_remove_same", "direct_insert_ancestor",
+                 "direct_remove_ancestor", "negative_index_alias", "container_type_replaced",
+                 "child_write_replaced_scalar", "child_write_created_node", "array_shift_by_del", "array_padding",
+                 "direct_insert_descendant", "direct_remove_descendant"]
+        cause = next((c for c in order if c in cands), "other")
         ctx.violation("read_only_modified:%s" % cause,
                       {"src": src, "read_only": ro_req, "path": text, "recursive": rec,
                        "before": repr(before)[:200], "after": repr(after)[:200],
